@@ -35,7 +35,7 @@ ASSUMPTIONS = [
   "sequence AND went through the same set of wrapper kinds",
 ]
 
-POOLS = ["list123", "empty", "periodic12", "const4", "gen5", "chain"]
+POOLS = ["list123", "empty", "periodic12", "const4", "gen5", "chain", "periodic123"]
 
 
 def make_pool(name):
@@ -43,6 +43,7 @@ def make_pool(name):
   if name == "empty": return Stream([]), Seq((), None)
   if name == "periodic12": return Stream(1, 2), Seq((), (1, 2))
   if name == "const4": return Stream(4), Seq((), (4,))
+  if name == "periodic123": return Stream(1, 2, 3), Seq((), (1, 2, 3))
   if name == "gen5": return Stream(x for x in [1, 2, 3, 4, 5]), Seq((1, 2, 3, 4, 5), None)
   if name == "chain": return Stream([1, 2], (3,)), Seq((1, 2, 3), None)
   raise ValueError(name)
